@@ -138,7 +138,21 @@ def needs(prog, units=None):
     return summ
 
 
-def sites(fn, summ):
+def destructors(prog):
+    """{function name: parameter index} for program functions that hand a parameter itself to p_free (role, not name)"""
+    out = {}
+    for u in prog.units.values():
+        for f in u.functions.values():
+            ps = f.param_names()
+            for (b, i, c) in f.calls():
+                if c.get("callee") in ("p_free", "free") and c.get("args"):
+                    a = strip_casts(c["args"][0])
+                    if a is not None and a["k"] == "ref" and a.get("decl") == "param" and a["name"] in ps:
+                        out.setdefault(f.name, ps.index(a["name"]))
+    return out
+
+
+def sites(fn, summ, destr=None):
     """Calls handing a local object allocated in fn to a function with needs:
     [(call node, callee, object var, [(field, count field, line in callee, how, why NULL)], witness lines)]"""
     out = []
@@ -151,12 +165,18 @@ def sites(fn, summ):
             if l is not None and l["k"] == "ref" and l.get("decl") == "local" and r is not None and r["k"] == "call" \
                     and r.get("callee") in ZERO_ALLOC + RAW_ALLOC:
                 objs[l["name"]] = r.get("callee") in ZERO_ALLOC
-    if not objs or not any(c.get("callee") in summ and any(pth for (k, pth, cnt) in summ[c["callee"]]) for (b, i, c) in fn.calls()):
+    destr = destr or {}
+    if not objs or not any((c.get("callee") in summ and any(pth for (k, pth, cnt) in summ[c["callee"]])) or c.get("callee") in destr for (b, i, c) in fn.calls()):
         return out
 
     def on_stmt(st, b, i, stmt):
         facts, stored = st
         for n in walk(stmt):
+            if n["k"] == "call" and n.get("callee") in destr and destr[n["callee"]] < len(n["args"]) \
+                    and not any(pth and k == destr[n["callee"]] for (k, pth, cnt) in summ.get(n["callee"], {})):
+                a = strip_casts(n["args"][destr[n["callee"]]])
+                if a is not None and a["k"] == "ref" and a["name"] in objs:
+                    out.append((n, n["callee"], a["name"], None, None))       # a destructor with no member it needs non-NULL
             if n["k"] == "call" and n.get("callee") in summ and summ[n["callee"]]:
                 for (k, path, cnt), (l2, h2) in sorted(summ[n["callee"]].items(), key=lambda kv: str(kv)):
                     if k >= len(n["args"]) or not path:
